@@ -44,7 +44,7 @@ theorem zoneLoop_eq_G (lim : Limits) (f : Fields) (z : Zone) (prevSec prevOff : 
 
 /-- `CronTrigger.NextFireTime(prev)` with the translated state machine (`cf` = its fuel) -/
 def nextFireT (T : TimeExt) (cf : Nat) (f : Fields) (z : Zone) (prevNs : Int) : Outcome :=
-  let prevSec := Int.tdiv prevNs 1000000000
+  let prevSec := prevNs / 1000000000   -- floor: the whole second prev lies in (D27)
   let prevOff := z.offsetAt prevSec
   zoneLoopG (fun wall => transCsmNext T f wall cf) z prevSec prevOff csmFuel (Civil.ofSeconds (prevSec + prevOff))
 
@@ -87,11 +87,10 @@ theorem wall0_year (c prev : Int) (hc : -100000 ≤ c ∧ c ≤ 100000) (hp : 0 
 theorem nextFireT_eq (T : TimeExt) (cf : Nat) (f : Fields) (hwf : WellFormed f = true) (hA : Agree T cf f)
     (c prev : Int) (hc : -100000 ≤ c ∧ c ≤ 100000) (hp : 0 ≤ prev) (hmax : prev ≤ 9223372036854775807) :
     nextFireT T cf f (fixedZone c) prev = nextFire {} f (fixedZone c) prev := by
-  have htd : Int.tdiv prev 1000000000 = prev / 1000000000 := Int.tdiv_eq_ediv_of_nonneg hp
   obtain ⟨hwv, _⟩ := wall0_valid c prev hc hp
   have hy := wall0_year c prev hc hp hmax
   unfold nextFireT nextFire
-  simp only [htd, fixedZone]
+  simp only [fixedZone]
   exact zoneLoopT_eq T cf f hwf hA _ _ _ _ _ hwv hy
 
 end TransCsm
